@@ -1407,6 +1407,10 @@ def target_worker_thread(host: str, port: int, shared_aconf: AuditConf) -> Tuple
         ret = -1
         string_output = "An exception occurred while scanning %s:%d:\n%s" % (host, port, str(traceback.format_exc()))
     finally:
+        # If JSON output was requested but this target could not be audited, its output is an error message (possibly following a partial JSON document).  Wrap it in a JSON object so that the array printed by main() remains well-formed.
+        if shared_aconf.json and ret not in (exitcodes.GOOD, exitcodes.WARNING, exitcodes.FAILURE):
+            string_output = json.dumps({'target': '%s:%d' % (host, port), 'error': string_output}, indent=4 if shared_aconf.json_print_indent else None, sort_keys=True)
+
         # Worker threads are re-used for subsequent targets.  Delete this thread's copy of the algorithm databases so that notes added while scanning this target (key sizes, Terrapin warnings, etc.) do not appear in the results of the next one.
         SSH1_KexDB.thread_exit()
         SSH2_KexDB.thread_exit()
